@@ -322,6 +322,26 @@ def run_case(case, ctx):
             if nb and na:
                 ctx.label("marker-in-the-middle")
                 nontriv = True
+    # 4b. abvm and blwm are generated independently of each other: writing one by hand leaves the other as it is generated without the hand-written block
+    sibling = {"abvm": "blwm", "blwm": "abvm"}
+    todo_tags = [sibling[t_] for t_ in case["blocks"] if t_ in sibling and sibling[t_] not in case["blocks"]]
+    if mode == "default" and todo_tags and not (set(case["blocks"]) - {"abvm", "blwm", "kern", "dist", "curs"}):
+        keep = [ln for ln in re.split(r"(?<=;)\n(?=feature |table |lookup |markClass |@|languagesystem )", text)]
+        stripped = "\n".join(b_ for b_ in keep if not re.match(r"feature (%s) \{" % "|".join(GPOS_TAGS), b_) and not b_.startswith("table GDEF"))
+        spec_b = base_spec()
+        spec_b["features"] = stripped + "\n"
+        try:
+            with guard("compile with writers, hand-written positioning blocks removed", allowed=(FeatureLibError,)):
+                tb = ufo2ft.compileTTF(S.build(spec_b, module), useProductionNames=False)
+            rb = raw(tb, "GPOS")[1]
+        except FeatureLibError:
+            rb = None
+        if rb is not None:
+            for tag in todo_tags:  # a hand-written abvm must not keep blwm from being generated, and vice versa
+                if feature_xml(r1, tag) != feature_xml(rb, tag):
+                    raise Violation("a generated feature that the user did not write differs from what is generated without the hand-written blocks", feature=tag,
+                                    handwritten=sorted(case["blocks"]), writers=mode)
+            ctx.count("unwritten-features-compared-with-baseline")
     # 5. writer order
     if mode == "ellipsis-first" and ("GSUB", "ss20") not in calls:
         raise Violation("a writer listed after the ellipsis was not called", call_order=calls)
